@@ -718,6 +718,9 @@ func (p *printer) method(sv *spec.Service, m *spec.Method) {
 		for _, r := range h.Routes {
 			p.ln("%s(%s)", r.Verb, q(r.Path))
 		}
+		for _, n := range h.ExplicitPathParams {
+			p.ln("Param(%s)", q(n))
+		}
 		for _, l := range h.Query {
 			p.ln("Param(%s)", loc(l))
 		}
